@@ -23,6 +23,9 @@ ap.add_argument("--src", default=None)
 ap.add_argument("--seed", type=int, default=0)
 ap.add_argument("--tier", default="quick")
 ap.add_argument("--also", default="", help="comma separated further property ids this finding is listed for")
+ap.add_argument("--search", type=int, default=0, help="search unit indices index..index+N-1 for the first violation matching --sig")
+ap.add_argument("--sig", default="", help="JSON list: required violation signature")
+ap.add_argument("--line", default="", help="explicit 'fixed:' / 'known:' line")
 a = ap.parse_args()
 if a.src:
     os.environ["VERIF_REPO_SRC"] = a.src
@@ -39,24 +42,40 @@ from sim.tape import Tape, run_seed  # noqa: E402
 
 mod = importlib.import_module("props." + a.prop.lower())
 found = None
-if hasattr(mod, "unit"):
-    for tp, o in mod.unit(a.index, a.seed, a.tier):
-        if o.sig is not None:
+want_sig = json.loads(a.sig) if a.sig else None
+want_known = a.id if a.status == "known" else None
+
+
+def match(o):
+    if o.sig is None:
+        return False
+    if want_sig is not None and list(o.sig) != want_sig:
+        return False
+    return o.known == want_known
+
+
+for index in range(a.index, a.index + max(a.search, 1)):
+    if hasattr(mod, "unit"):
+        for tp, o in mod.unit(index, a.seed, a.tier):
+            if match(o):
+                found = (tp, o)
+                break
+    else:
+        tp = Tape(run_seed(a.seed, mod.ID, index))
+        o = mod.run(tp)
+        if match(o):
             found = (tp, o)
-            break
-else:
-    tp = Tape(run_seed(a.seed, mod.ID, a.index))
-    o = mod.run(tp)
-    if o.sig is not None:
-        found = (tp, o)
+    if found:
+        print("unit", index)
+        break
 if not found:
-    sys.exit("no violation in that unit")
+    sys.exit("no matching violation found")
 tp, o = found
 print("found", o.sig, "known=", o.known)
-streams, runs = minimise(mod.run, tp.to_json()["streams"], tuple(o.sig), o.known)
+streams, runs = minimise(mod.run, tp.to_json()["streams"], tuple(o.sig), o.known, **getattr(mod, "MINIMISE", {}))
 o2 = mod.run(Tape(streams=streams))
 print("minimised in", runs, "runs ->", {k: len(v) for k, v in streams.items()}, o2.sig, o2.known)
-print(json.dumps(o2.decoded, indent=1, default=repr)[:3000])
+print(json.dumps(o2.decoded, indent=1, default=repr)[:1200])
 path = os.path.join(HERE, "known_findings.json")
 kf = json.load(open(path))
 props = [a.prop.upper()] + [x for x in a.also.split(",") if x]
@@ -66,9 +85,9 @@ entry = {
 }
 if a.status == "fixed":
     entry["commit"] = a.commit
-    entry["line"] = f"fixed: property={a.prop.upper()} {a.commit} {a.text}"
+    entry["line"] = a.line or f"fixed: property={a.prop.upper()} {a.commit} {a.text}"
 else:
-    entry["line"] = f"known: property={a.prop.upper()} {a.id} {a.text}"
+    entry["line"] = a.line or f"known: property={a.prop.upper()} {a.id} {a.text}"
 kf["findings"] = [e for e in kf["findings"] if not (e["id"] == a.id and e["property"] == a.prop.upper())] + [entry]
 json.dump(kf, open(path, "w"), indent=1)
 print("written", a.id)
